@@ -325,6 +325,12 @@ class UOWTransaction:
                 )
             return False
 
+        if isdelete and state.key is None:
+            # a pending object reached by a delete cascade that runs during
+            # the flush (delete-orphan); there is no row to DELETE.  It stays
+            # pending, as it does when Session.delete() cascades onto it.
+            return False
+
         if state not in self.states:
             mapper = state.manager.mapper
 
